@@ -335,6 +335,18 @@ CLAUSE_STATEMENTS = [
     ('SELECT account WHERE sum(number) > 0', False),
     ('BALANCES WHERE count(*) > 0', False),
     ('SELECT account FROM year = 2020 WHERE first(date) = date', False),
+    # HAVING must be an aggregate expression, also when it repeats a target or a grouping key
+    ('SELECT account, sum(number) GROUP BY account HAVING account', False),
+    ('SELECT account, number > 0, count(*) GROUP BY 1, 2 HAVING number > 0', False),
+    ("SELECT count(*) GROUP BY flag = '!' HAVING flag = '!'", False),
+    ('SELECT account, sum(number) GROUP BY account HAVING sum(number) > 0', True),
+    ('SELECT account, count(*) AS n GROUP BY account HAVING count(*) > 1', True),
+    # a grouping key may be referred to more than once
+    ('SELECT account, sum(number) GROUP BY account, 1', True),
+    ('SELECT year(date) AS y, count(*) GROUP BY y, year(date)', True),
+    ('SELECT count(*) GROUP BY flag, flag', True),
+    ('SELECT account, date, count(*) GROUP BY 2, account, 1, date', True),
+    ('SELECT account, date, count(*) GROUP BY account', False),
     # the metadata look-ups take exactly one string key
     ('SELECT meta()', False), ('SELECT entry_meta()', False), ("SELECT account WHERE any_meta() = 'x'", False),
     ("SELECT meta('note', 'bogus')", False), ("SELECT any_meta('note', account, 42)", False), ('SELECT meta(1)', False),
